@@ -94,3 +94,8 @@ func DynPtrTo(ret any, content any) bool { return false }
 
 // SentOn reports that some value was sent on ch on this path.
 func SentOn[T any](ch chan T) bool { return false }
+
+// CalledInIter / CalledWithInIter: like Called / CalledWith, restricted to the
+// current loop iteration (events after the last loop head).
+func CalledInIter(s string) bool                        { return false }
+func CalledWithInIter[T any](s string, i int, v T) bool { return false }
